@@ -30,7 +30,8 @@ from ..core import Check
 THEOREMS = {n: "Props.C03" for n in [
     "C03_index_consistent", "C03_report_exact", "C03_reject_unchanged",
     "C03_every_new_simplex_has_pt", "C03_vertices_appended_once",
-    "C03_old_facets_stay_le2", "C03_first_overlap_at_new_vertex", "C03_simplices_sorted_nodup"]}
+    "C03_old_facets_stay_le2", "C03_first_overlap_at_new_vertex", "C03_simplices_sorted_nodup",
+    "C03_closed_cavity_keeps_hull_property"]}
 
 PREAMBLE = """From Coq Require Import List. Import ListNotations.
 From AV Require Import Base.Prelude Model.Tri Run.TriRun.
